@@ -102,3 +102,30 @@ Example C01_example_arb :
   sumZ (map u_coins (utxo (run_arb (init_state ex_g) ex_ops_arb))) = 1000.
 Proof. split; [exact ex_premises_arb|]. vm_compute. repeat split. Qed.
 Print Assumptions C01_example_arb.
+
+(* ---- the model's coin / hour spending checks ARE the code (added by the
+   translator-tie builder; proofs in Proofs/LedgerRefine.v): the hand-written
+   coins_spending / hours_spending of Model/Ledger.v are equal, for ALL inputs
+   (no range hypotheses), to the Gallina regenerated from
+   src/coin/transactions.go on every run (Gen/CoinLoops.v), applied to the
+   fields the Go functions read (inputs: Body.Coins resp. (Head.Time, Body.Coins,
+   Body.Hours); outputs: Coins resp. Hours), with the translated function's error
+   message classified into the model's enum (coins_err_class / hours_err_class).
+   A change of meaning of coin.VerifyTransactionCoinsSpending — the check that
+   C01_supply_step rests on — breaks a proof obligation here. *)
+From Sky Require Gen.CoinLoops.
+From Sky Require Import Proofs.LedgerRefine.
+
+Theorem C01_coins_spending_is_translated : forall uxin outs,
+  coins_spending uxin outs =
+  chk_of coins_err_class
+    (CoinLoops.VerifyTransactionCoinsSpending (map u_coins uxin) (map o_coins outs)).
+Proof. exact coins_spending_refines. Qed.
+Print Assumptions C01_coins_spending_is_translated.
+
+Theorem C01_hours_spending_is_translated : forall T uxin outs,
+  hours_spending T uxin outs =
+  chk_of hours_err_class
+    (CoinLoops.VerifyTransactionHoursSpending T (map ux_proj uxin) (map o_hours outs)).
+Proof. exact hours_spending_refines. Qed.
+Print Assumptions C01_hours_spending_is_translated.
